@@ -113,9 +113,13 @@ def load_dir(d):
             role = base
         data['crate_type'] = role
         import canon
+        ty_aliases = canon.apply_type_aliases(data, role)
         aliases = canon.apply(data, role)
+        fn_aliases = canon.apply_fn_aliases(data, role)
         out[role] = Crate(data, f)
         out[role].field_aliases = aliases
+        out[role].fn_aliases = fn_aliases
+        out[role].type_aliases = ty_aliases
     return out
 
 
